@@ -2425,15 +2425,16 @@ CMR_ERROR CMRysumCompose(CMR* cmr, CMR_CHRMAT* first, CMR_CHRMAT* second, size_t
   CMR_CALL( CMRchrmatTranspose(cmr, second, &transpose_second) );
 
   CMR_CHRMAT* transpose_result = NULL;
-  CMR_CALL( CMRdeltasumCompose(cmr, transpose_first, transpose_second, firstSpecialColumns, firstSpecialRows,
-    secondSpecialColumns, secondSpecialRows, characteristic, &transpose_result) );
-  CMR_CALL( CMRchrmatTranspose(cmr, transpose_result, presult) );
+  CMR_ERROR error = CMRdeltasumCompose(cmr, transpose_first, transpose_second, firstSpecialColumns, firstSpecialRows,
+    secondSpecialColumns, secondSpecialRows, characteristic, &transpose_result);
+  if (!error)
+    error = CMRchrmatTranspose(cmr, transpose_result, presult);
 
   CMR_CALL( CMRchrmatFree(cmr, &transpose_result) );
   CMR_CALL( CMRchrmatFree(cmr, &transpose_first) );
   CMR_CALL( CMRchrmatFree(cmr, &transpose_second) );
 
-  return CMR_OKAY;
+  return error;
 }
 
 CMR_ERROR CMRysumDecomposeEpsilon(CMR* cmr, CMR_CHRMAT* matrix, CMR_CHRMAT* transpose, CMR_SEPA* sepa, char* pepsilon)
@@ -2446,10 +2447,10 @@ CMR_ERROR CMRysumDecomposeEpsilon(CMR* cmr, CMR_CHRMAT* matrix, CMR_CHRMAT* tran
 
   CMR_SEPA* transpose_sepa = NULL;
   CMR_CALL( CMRsepaTranspose(cmr, sepa, &transpose_sepa) );
-  CMR_CALL( CMRdeltasumDecomposeEpsilon(cmr, transpose, matrix, transpose_sepa, pepsilon) );
+  CMR_ERROR error = CMRdeltasumDecomposeEpsilon(cmr, transpose, matrix, transpose_sepa, pepsilon);
   CMR_CALL( CMRsepaFree(cmr, &transpose_sepa) );
 
-  return CMR_OKAY;
+  return error;
 }
 
 CMR_ERROR CMRysumDecomposeFirst(CMR* cmr, CMR_CHRMAT* matrix, CMR_SEPA* sepa, char epsilon, CMR_CHRMAT** pfirst,
@@ -2467,15 +2468,16 @@ CMR_ERROR CMRysumDecomposeFirst(CMR* cmr, CMR_CHRMAT* matrix, CMR_SEPA* sepa, ch
   CMR_SEPA* transpose_sepa = NULL;
   CMR_CALL( CMRsepaTranspose(cmr, sepa, &transpose_sepa) );
 
-  CMR_CALL( CMRdeltasumDecomposeFirst(cmr, transpose_matrix, transpose_sepa, epsilon, &transpose_first,
-    firstColumnsOrigin, firstRowsOrigin, columnsToFirst, rowsToFirst, firstSpecialColumns, firstSpecialRows) );
+  CMR_ERROR error = CMRdeltasumDecomposeFirst(cmr, transpose_matrix, transpose_sepa, epsilon, &transpose_first,
+    firstColumnsOrigin, firstRowsOrigin, columnsToFirst, rowsToFirst, firstSpecialColumns, firstSpecialRows);
 
-  CMR_CALL( CMRchrmatTranspose(cmr, transpose_first, pfirst) );
+  if (!error)
+    error = CMRchrmatTranspose(cmr, transpose_first, pfirst);
   CMR_CALL( CMRsepaFree(cmr, &transpose_sepa) );
   CMR_CALL( CMRchrmatFree(cmr, &transpose_first) );
   CMR_CALL( CMRchrmatFree(cmr, &transpose_matrix) );
 
-  return CMR_OKAY;
+  return error;
 }
 
 CMR_ERROR CMRysumDecomposeSecond(CMR* cmr, CMR_CHRMAT* matrix, CMR_SEPA* sepa, char epsilon, CMR_CHRMAT** psecond,
@@ -2493,15 +2495,16 @@ CMR_ERROR CMRysumDecomposeSecond(CMR* cmr, CMR_CHRMAT* matrix, CMR_SEPA* sepa, c
   CMR_SEPA* transpose_sepa = NULL;
   CMR_CALL( CMRsepaTranspose(cmr, sepa, &transpose_sepa) );
 
-  CMR_CALL( CMRdeltasumDecomposeSecond(cmr, transpose_matrix, transpose_sepa, epsilon, &transpose_second,
-    secondColumnsOrigin, secondRowsOrigin, columnsToSecond, rowsToSecond, secondSpecialColumns, secondSpecialRows) );
+  CMR_ERROR error = CMRdeltasumDecomposeSecond(cmr, transpose_matrix, transpose_sepa, epsilon, &transpose_second,
+    secondColumnsOrigin, secondRowsOrigin, columnsToSecond, rowsToSecond, secondSpecialColumns, secondSpecialRows);
 
-  CMR_CALL( CMRchrmatTranspose(cmr, transpose_second, psecond) );
+  if (!error)
+    error = CMRchrmatTranspose(cmr, transpose_second, psecond);
   CMR_CALL( CMRsepaFree(cmr, &transpose_sepa) );
   CMR_CALL( CMRchrmatFree(cmr, &transpose_second) );
   CMR_CALL( CMRchrmatFree(cmr, &transpose_matrix) );
 
-  return CMR_OKAY;
+  return error;
 }
 
 CMR_ERROR CMRthreesumCompose(CMR* cmr, CMR_CHRMAT* first, CMR_CHRMAT* second, size_t* firstSpecialRows,
